@@ -2,8 +2,10 @@
 //
 // Programs (forests of Builder operations) are enumerated exhaustively:
 //
-//	A  every forest with at most T operations (T=4 quick, 5 thorough; nesting depth
-//	   therefore up to T) over 24 leaf operations and 7 node operations,
+//	A  every forest with at most 4 operations (nesting depth therefore up to 4) over
+//	   24 leaf operations and 7 node operations (quick: the 65535/65536-byte leaves
+//	   only in forests of at most 3 operations); thorough adds every forest of exactly
+//	   5 operations over a reduced alphabet of 12 leaves and 4 nodes,
 //	B  every chain of up to 3 (thorough 4) nested length-prefix kinds around every
 //	   content size within 14 below .. 1 above each boundary 128 / 256 / 65536
 //	   (thorough: within 8 below .. 1 above 2^24 for chains up to depth 2, plain
@@ -551,21 +553,29 @@ type space struct {
 	f, tr         []uint64 // f[t] forests with exactly t ops, tr[s] trees with exactly s ops
 }
 
-func newSpace(T int, sizes []int) *space {
+func newSpace(T int, sizes []int, reduced bool) *space {
 	sp := &space{}
-	for _, k := range []cbref.Kind{cbref.U8, cbref.U16, cbref.U24, cbref.U32, cbref.U48, cbref.U64} {
+	ints := []cbref.Kind{cbref.U8, cbref.U16, cbref.U24, cbref.U32, cbref.U48, cbref.U64}
+	unwrites := []int{-1, 0, 1, 2}
+	if reduced {
+		ints = []cbref.Kind{cbref.U8, cbref.U24}
+		unwrites = []int{1, 2}
+	}
+	for _, k := range ints {
 		sp.leaves = append(sp.leaves, cbref.Op{Kind: k})
 	}
 	for _, n := range sizes {
 		sp.leaves = append(sp.leaves, cbref.Op{Kind: cbref.Bytes, Arg: n})
 	}
-	for _, n := range []int{-1, 0, 1, 2} {
+	for _, n := range unwrites {
 		sp.leaves = append(sp.leaves, cbref.Op{Kind: cbref.Unwrite, Arg: n})
 	}
-	sp.leaves = append(sp.leaves, cbref.Op{Kind: cbref.SetError}, cbref.Op{Kind: cbref.PanicBuildError}, cbref.Op{Kind: cbref.PanicOther},
-		cbref.Op{Kind: cbref.RootWrite}, cbref.Op{Kind: cbref.ASN1BadTag, Arg: 0x1f})
-	sp.nodes = []cbref.Op{{Kind: cbref.LP8}, {Kind: cbref.LP16}, {Kind: cbref.LP24}, {Kind: cbref.LP32},
-		{Kind: cbref.ASN1, Arg: 0x30}, {Kind: cbref.AddValue, Arg: 0}, {Kind: cbref.AddValue, Arg: 1}}
+	sp.leaves = append(sp.leaves, cbref.Op{Kind: cbref.SetError}, cbref.Op{Kind: cbref.PanicBuildError}, cbref.Op{Kind: cbref.RootWrite})
+	sp.nodes = []cbref.Op{{Kind: cbref.LP8}, {Kind: cbref.LP16}, {Kind: cbref.ASN1, Arg: 0x30}, {Kind: cbref.AddValue, Arg: 0}}
+	if !reduced {
+		sp.leaves = append(sp.leaves, cbref.Op{Kind: cbref.PanicOther}, cbref.Op{Kind: cbref.ASN1BadTag, Arg: 0x1f})
+		sp.nodes = append(sp.nodes, cbref.Op{Kind: cbref.LP24}, cbref.Op{Kind: cbref.LP32}, cbref.Op{Kind: cbref.AddValue, Arg: 1})
+	}
 	L, N := uint64(len(sp.leaves)), uint64(len(sp.nodes))
 	sp.f = make([]uint64, T+1)
 	sp.tr = make([]uint64, T+1)
@@ -615,9 +625,9 @@ func (sp *space) tree(s int, j uint64) *cbref.Op {
 }
 
 // familyA enumerates every forest with exactly t operations for t in [tLo, tHi].
-func (k *checker) familyA(label string, tLo, tHi int, sizes []int) {
+func (k *checker) familyA(label string, tLo, tHi int, sizes []int, reduced bool) {
 	c := k.c
-	sp := newSpace(tHi, sizes)
+	sp := newSpace(tHi, sizes, reduced)
 	perSize := map[string]uint64{}
 	for t := tLo; t <= tHi; t++ {
 		perSize[fmt.Sprint(t)] = sp.f[t]
@@ -820,16 +830,16 @@ func run(c *vf.Ctx) {
 		phase("B")
 		k.familyB(2, []int{1 << 24}, "B24")
 		phase("B24")
-		k.familyA("all_sizes", 0, 4, sizes)
+		k.familyA("all_sizes", 0, 4, sizes, false)
 		phase("A_all_sizes")
-		k.familyA("sizes_upto_256", 5, 5, small)
-		phase("A_sizes_upto_256")
+		k.familyA("reduced_alphabet", 5, 5, []int{1, 127, 128, 255, 256}, true)
+		phase("A_reduced_alphabet")
 	} else {
 		k.familyB(3, []int{128, 256, 65536}, "B")
 		phase("B")
-		k.familyA("all_sizes", 0, 3, sizes)
+		k.familyA("all_sizes", 0, 3, sizes, false)
 		phase("A_all_sizes")
-		k.familyA("sizes_upto_256", 4, 4, small)
+		k.familyA("sizes_upto_256", 4, 4, small, false)
 		phase("A_sizes_upto_256")
 	}
 }
